@@ -899,6 +899,13 @@ impl Callbacks for Cb {
                 }
             }
         }
+        // user-written `unsafe` blocks (the crate denies unsafe_code; the rules' ownership arguments assume there are none)
+        let mut uf = UnsafeFinder { found: vec![] };
+        for &def in owners.iter() {
+            let hb = tcx.hir_body_owned_by(def);
+            rustc_hir::intravisit::Visitor::visit_body(&mut uf, hb);
+        }
+        let unsafe_blocks: Vec<J> = uf.found.iter().map(|sp| cx.span(*sp)).collect();
         // phase 2: serialise
         let mut bodies = vec![];
         for (def, body) in cloned.iter() {
@@ -917,6 +924,7 @@ impl Callbacks for Cb {
             ("cfg", J::A(cfgs)),
             ("is_test", J::B(is_test)),
             ("rustc", s(option_env!("CFG_VERSION").unwrap_or("nightly"))),
+            ("unsafe_blocks", J::A(unsafe_blocks)),
             ("adts", adts),
             ("foreign_enums", J::A(cx.foreign_enums.borrow().iter().map(|(p, vs)| J::O(vec![
                 ("path", s(p.clone())),
@@ -933,6 +941,20 @@ impl Callbacks for Cb {
         std::fs::write(&tmp, out).expect("zmqfacts: cannot write facts");
         std::fs::rename(&tmp, &out_path).expect("zmqfacts: cannot rename facts");
         Compilation::Continue
+    }
+}
+
+struct UnsafeFinder {
+    found: Vec<Span>,
+}
+impl<'tcx> rustc_hir::intravisit::Visitor<'tcx> for UnsafeFinder {
+    fn visit_block(&mut self, b: &'tcx rustc_hir::Block<'tcx>) {
+        if let rustc_hir::BlockCheckMode::UnsafeBlock(rustc_hir::UnsafeSource::UserProvided) = b.rules {
+            if !b.span.from_expansion() {
+                self.found.push(b.span);
+            }
+        }
+        rustc_hir::intravisit::walk_block(self, b);
     }
 }
 
